@@ -130,6 +130,8 @@ class Translator:
                     walk(ch)
         for o in objs:
             walk(o)
+        if spec.get('mangled'):
+            cands = [c for c in cands if spec['mangled'] in c.get('mangledName', '')]
         if spec.get('nparams') is not None:
             cands = [c for c in cands if len([p for p in c.get('inner', []) if p.get('kind') == 'ParmVarDecl']) == spec['nparams']]
         if not cands:
@@ -283,6 +285,9 @@ class Translator:
             args = [self.expr(a, cx) for a in inner[1:] if a['kind'] != 'CXXDefaultArgExpr']
             if name == 'ldiv':
                 return '(C.ldiv %s %s)' % tuple(args)
+            if name == 'safe_unsigned_multiply':
+                (w, sg) = ctype(n)
+                return '(C.umul %d %s %s)' % (w, args[0], args[1])
             callee = cx.tr.leaves.get(name)
             if callee is None:
                 raise Untranslatable('call to unknown function %s' % name)
@@ -539,6 +544,28 @@ class Translator:
             if p.get('kind') == 'ParmVarDecl':
                 params.append(lean_ident(p.get('name', '_')))
         body = [c for c in fn['inner'] if c.get('kind') == 'CompoundStmt'][0]
+        if spec.get('params') is not None:
+            params = list(spec['params'])
+        if spec.get('var_init') or spec.get('if_cond') is not None:
+            found = []
+
+            def walk(o):
+                if isinstance(o, dict):
+                    if spec.get('var_init') and o.get('kind') == 'VarDecl' and o.get('name') == spec['var_init'] and 'inner' in o:
+                        found.append(o['inner'][-1])
+                    if spec.get('if_cond') is not None and o.get('kind') == 'IfStmt':
+                        found.append(o['inner'][0])
+                    for ch in o.get('inner', []) or []:
+                        walk(ch)
+            walk(body)
+            idx = spec.get('if_cond') or 0
+            if len(found) <= idx:
+                raise Untranslatable('fragment not found in %s' % spec['cname'])
+            text = self.expr(found[idx], cx)
+            rt = spec.get('ret', 'Nat')
+            sig = ' '.join('(%s : %s)' % (p, spec.get('ptypes', {}).get(p, 'Nat')) for p in params)
+            return '/-- translated from a fragment of `%s` (%s) -/\ndef %s %s : %s :=\n%s\n' % (
+                spec['cname'], spec['file'], spec['lean'], sig, rt, indent(text))
         # return type
         rq = fn['type']['qualType']
         tail = None
